@@ -43,6 +43,8 @@ impl SampledChance {
             let res = self.index.sample(&mut thread_rng());
             #[cfg(feature = "verif-hooks")]
             let res = crate::verif::draw(&self.verif, &self.verif_probs, res);
+            #[cfg(feature = "verif-hooks")]
+            crate::verif::yield_point();
             self.cached = res + 1;
             res
         } else {
